@@ -601,7 +601,27 @@ fn random_schedule(rng: &mut StdRng, k: u64, len: usize) -> Schedule {
     let mut bigs = 0;
     let mut closed = false;
     let s = |op: &str, id: u64| Step { op: op.into(), id, ..Default::default() };
-    for _ in 0..len {
+    // one schedule in 100 contains a burst: a couple of hundred requests ready at once for one poll
+    let burst_at = if k % 100 == 11 { Some(rng.gen_range(2..len.max(3))) } else { None };
+    for stepno in 0..len {
+        if Some(stepno) == burst_at && !closed {
+            if ncl == 0 {
+                ncl = 1;
+                steps.push(s("reg_cl", 1));
+            }
+            if nsv == 0 {
+                nsv = 1;
+                steps.push(s("reg_sv", 1));
+            }
+            steps.push(s("poll", 0));
+            let id = rng.gen_range(1..=ncl);
+            for _ in 0..rng.gen_range(130..220) {
+                reqs += 1;
+                steps.push(Step { op: "request".into(), id, which: "reqid".into(), arg: 1, role: String::new() });
+            }
+            steps.push(s("poll", 0));
+            continue;
+        }
         let r = rng.gen_range(0..100);
         let st = if r < 22 {
             s("poll", 0)
